@@ -51,6 +51,7 @@ func main() {
 	nmono := flag.Int("mono", 2, "added references per package")
 	cperm := flag.Int("cperms", 1, "permutations per corpus package")
 	cmono := flag.Int("cmono", 1, "added references per corpus package")
+	maxOrders := flag.Int("maxorders", 30, "orders tried per directed package (all orders if it has that few)")
 	shards := flag.Int("shards", 8, "number of case files")
 	corpus := flag.String("corpus", "", "comma separated dir:pattern+pattern (module roots)")
 	maxNodes := flag.Int("maxnodes", 4000, "skip corpus packages whose graph is larger")
@@ -62,7 +63,10 @@ func main() {
 	o := output{Stats: map[string]int{}, Shards: *shards}
 	texts := make([][]string, *shards)
 
-	process := func(p *u1000.Pkg, across bool, nperm, nmono int) {
+	process := func(p *u1000.Pkg, across bool, nperm, nmono int, orders [][]u1000.SrcFile) {
+		if orders != nil {
+			nperm = len(orders)
+		}
 		bi := bundleInfo{Pkg: p.Name}
 		var graphs, perms, monos []string
 		addG := func(q *u1000.Pkg, what string) int {
@@ -88,7 +92,10 @@ func main() {
 		for k := 0; k <= nperm; k++ {
 			srcs := p.Sources
 			what := "analysis repeated"
-			if k > 0 {
+			if k > 0 && orders != nil {
+				srcs = orders[k-1]
+				what = fmt.Sprintf("declarations reordered (order %d of all %d)", k, len(orders))
+			} else if k > 0 {
 				srcs = p.Permute(rnd, across)
 				what = "files and declarations permuted"
 			}
@@ -188,7 +195,32 @@ func main() {
 			continue
 		}
 		o.Stats["generated"]++
-		process(p, true, *nperm, *nmono)
+		process(p, true, *nperm, *nmono, nil)
+	}
+	// directed packages: ALL declaration orders
+	{
+		dp := u1000.DirectedPackages()
+		var names []string
+		for n := range dp {
+			names = append(names, n)
+		}
+		sort.Strings(names)
+		for _, name := range names {
+			dir := filepath.Join(*work, "directed", name)
+			p, errs, _ := u1000.Check("directed/"+name, "example.com/directed/"+name, dir, dp[name], nil)
+			if len(errs) > 0 {
+				o.Harness = append(o.Harness, fmt.Sprintf("directed/%s does not type-check: %v", name, errs[0]))
+				continue
+			}
+			p.WriteToDisk()
+			if err := p.Analyze(); err != nil {
+				o.Skipped = append(o.Skipped, fmt.Sprintf("directed/%s: analyzer failed: %v", name, err))
+				o.Stats["analyzer_failed"]++
+				continue
+			}
+			o.Stats["directed"]++
+			process(p, false, 0, 1, p.AllOrders(*maxOrders))
+		}
 	}
 	lap("generated packages done")
 	// corpora on disk
@@ -220,7 +252,7 @@ func main() {
 					continue
 				}
 				o.Stats["corpus"]++
-				process(p, false, *cperm, *cmono)
+				process(p, false, *cperm, *cmono, nil)
 			}
 		}
 	}
